@@ -398,6 +398,16 @@ pub fn check_failure(b: &Bound, which: &str) -> Option<String> {
             expected_formulae = Some(1);
             vec![ms, dir.path().to_str().unwrap().to_string()]
         }
+        "invalid formula between valid ones" => {
+            std::fs::write(&f, "EF a\nEX (a &\nAG b\n!{x}: AX {x}\n").ok()?;
+            expected_formulae = Some(4);
+            vec![ms, fs]
+        }
+        "unknown proposition between valid ones" => {
+            std::fs::write(&f, "EF a\nEF zzz\nAG b\n~ a\n").ok()?;
+            expected_formulae = Some(4);
+            vec![ms, fs, "-p".into(), "exhaustive".into()]
+        }
         "invalid formula after valid ones" => {
             std::fs::write(&f, "EF a\nAG b\nEX (a &\n").ok()?;
             expected_formulae = Some(3);
@@ -422,9 +432,31 @@ pub fn check_failure(b: &Bound, which: &str) -> Option<String> {
     if let Some(n) = expected_formulae {
         let text = format!("{}\n{}", cli::strip_ansi(&out.stdout), cli::strip_ansi(&out.stderr));
         let blocks = text.lines().filter(|l| l.trim_start().starts_with("Formula:")).count();
-        let diagnostic = ["corrupted", "rror", "nvalid", "UTF-8", "annot", "ailed", "nexpected", "xpected", "directory"].iter().any(|w| text.contains(w));
+        let diagnostic = ["corrupted", "rror", "nvalid", "UTF-8", "annot", "ailed", "nexpected", "xpected", "directory", "There is no", "no network variable", "lacks", "is free", "several times", "not support"].iter().any(|w| text.contains(w));
         if blocks < n && !diagnostic {
             return Some(format!("{which}: the tool evaluates {blocks} of the {n} formulae of the file and reports no problem (output: {})", crate::report::truncate(&text, 300)));
+        }
+        // whatever the tool does print must be true: every printed block carries the numbers of ITS formula
+        if let Ok(parsed) = cli::parse_blocks(&out.stdout) {
+            for bl in parsed {
+                let k = match rp::parse_str(&bl.formula, false) {
+                    Ok(t) => t.qdepth() as u16,
+                    Err(_) => return Some(format!("{which}: a result block is printed for {:?}, which is not a formula", bl.formula)),
+                };
+                let g = match get_extended_symbolic_graph(&b.bn, k) {
+                    Ok(g) => g,
+                    Err(e) => return Some(format!("{which}: graph: {e}")),
+                };
+                match mc::model_check_formula_dirty(&bl.formula, &g) {
+                    Ok(r) => {
+                        let want = (r.approx_cardinality(), r.colors().approx_cardinality(), r.vertices().approx_cardinality());
+                        if (bl.results, bl.colors, bl.states) != want {
+                            return Some(format!("{which}: the block for {:?} prints {} / {} / {}, the library's result for that formula has {} / {} / {}", bl.formula, bl.results, bl.colors, bl.states, want.0, want.1, want.2));
+                        }
+                    }
+                    Err(e) => return Some(format!("{which}: a result block is printed for {:?}, which the library rejects: {e}", bl.formula)),
+                }
+            }
         }
     }
     None
@@ -574,7 +606,7 @@ pub fn run(tier: &str) -> Result<Report, String> {
     let failures = [
         "missing model", "corrupt model", "model with unknown extension", "missing formula file", "invalid formula", "free variable", "unknown proposition", "wild-card without -e",
         "missing context label", "missing context archive", "context archive is not a zip", "wrong print option", "empty formula file",
-        "formula file with a non-UTF-8 byte in a comment", "formula file with a non-UTF-8 byte in a formula", "formula file with a non-UTF-8 byte in its first line", "formula path is a directory", "invalid formula after valid ones",
+        "formula file with a non-UTF-8 byte in a comment", "formula file with a non-UTF-8 byte in a formula", "formula file with a non-UTF-8 byte in its first line", "formula path is a directory", "invalid formula after valid ones", "invalid formula between valid ones", "unknown proposition between valid ones",
     ];
     let b = by_name(&nets, "con2");
     for w in failures {
@@ -586,7 +618,7 @@ pub fn run(tier: &str) -> Result<Report, String> {
     rep.set("failure_configurations", json!(failures));
     rep.sample(json!({"network": "con2", "format": "sbml", "layout": 6, "print": "exhaustive", "-o": true, "formulae": plain_lists[1]}));
     rep.sample(json!({"formula_file_layout_6": formula_file(&plain_lists[2], 6)}));
-    rep.rule = format!("the hctl-model-checker binary built from the working tree is executed on {which:?} x model format (aeon, bnet, sbml where the format reproduces the network) x {LAYOUTS} formula-file layouts (comments, blank lines, surrounding blanks/tabs, CRLF, no final newline, mixed) x 4 print options x with/without -o x 3 plain + 2 extended formula lists, plus context archives whose sets are not confined to the valid colours (whole symbolic space, a raw state variable) on constrained networks, plus wide synthetic models (60 / 70 variables: counts beyond 2^53 and 2^64 must be printed as the library's numbers), plus four networks whose variable names are unusual as data (Ca_extra_cell / b_extra_1, x / xx, a / ab, EF1 / TRUE) with five formulae each, plus 24 single-operator formula files (each unary / binary / hybrid operator and pattern in a file of its own) (context archive with labels p, d, dom_1 written for the k the tool derives), plus context archives written for k-1, k+1, k+2 and 18 failure configurations (5 of them formula files that cannot be read or parsed completely: the tool must report a problem or evaluate every formula, never a silent prefix). Compared: order and text of Formula blocks, printed result/colour/state counts vs exact counts of the library's sets, exhaustive state listing, archive entry list, formulae.txt, every archived BDD vs model_check_multiple_(extended_)formulae_dirty; failures must produce a message and no crash. distinct_nontrivial = executed configurations");
+    rep.rule = format!("the hctl-model-checker binary built from the working tree is executed on {which:?} x model format (aeon, bnet, sbml where the format reproduces the network) x {LAYOUTS} formula-file layouts (comments, blank lines, surrounding blanks/tabs, CRLF, no final newline, mixed) x 4 print options x with/without -o x 3 plain + 2 extended formula lists, plus context archives whose sets are not confined to the valid colours (whole symbolic space, a raw state variable) on constrained networks, plus wide synthetic models (60 / 70 variables: counts beyond 2^53 and 2^64 must be printed as the library's numbers), plus four networks whose variable names are unusual as data (Ca_extra_cell / b_extra_1, x / xx, a / ab, EF1 / TRUE) with five formulae each, plus 24 single-operator formula files (each unary / binary / hybrid operator and pattern in a file of its own) (context archive with labels p, d, dom_1 written for the k the tool derives), plus context archives written for k-1, k+1, k+2 and 20 failure configurations (7 of them formula files that cannot be read or parsed completely: the tool must report a problem or evaluate every formula, never a silent prefix, and every result block it does print must carry the numbers of its own formula). Compared: order and text of Formula blocks, printed result/colour/state counts vs exact counts of the library's sets, exhaustive state listing, archive entry list, formulae.txt, every archived BDD vs model_check_multiple_(extended_)formulae_dirty; failures must produce a message and no crash. distinct_nontrivial = executed configurations");
     rep.assumptions.push("counts are compared with exact cardinalities computed from the point-wise read-back of the library's sets on valid colours".into());
     Ok(rep)
 }
